@@ -85,7 +85,8 @@ fn run_case<G: AffineRepr>(env: &Env<G>, c: &Case) -> CaseOut {
                 }
             }
             let (p, _) = build(c.seed, c.depth, c.exprs, wrong, Some(i));
-            if verdict::<G>(env, &p, c.seed ^ 9).0 != Some(expect_accept) {
+            let got = verdict::<G>(env, &p, c.seed ^ 9).0.unwrap_or(false);
+            if got != expect_accept {
                 return Some(i);
             }
         }
@@ -110,6 +111,7 @@ fn run_case<G: AffineRepr>(env: &Env<G>, c: &Case) -> CaseOut {
         o.evals += 1;
         match v_bad {
             Some(false) => o.count("one-constant-off -> rejected", 1),
+            None => o.count("one-constant-off -> prover refuses (not provable)", 1),
             other => {
                 o.violate(
                     "meaning-lost:wrong-constant-accepted",
